@@ -45,6 +45,17 @@ Theorem C01_map_spec : forall d body d',
           (d_rows d) (d_rows d').
 Proof. exact d_map_spec. Qed.
 
+(* NESTING.  An operator used as an operand of another operator (any context of the core language: dataset∘dataset operators
+   on either side, set operators, element-wise operators, clauses, at any depth) contributes exactly its own result — with
+   ALL the identifiers C01_binop_matches gives it: the one-statement form equals the script that computes the operand first *)
+Theorem C01_nested_operand_is_its_result : forall k e x r n,
+  deval e x = Ok r -> ~ In n (kvars k) -> deval e (plug k x) = deval ((n, r) :: e) (plug k (DVar n)).
+Proof. exact deval_plug_let. Qed.
+Theorem C01_nested_statement_is_flat_script : forall k e x r n out,
+  deval e x = Ok r -> ~ In n (kvars k) -> n <> out ->
+  run_script e [(out, plug k x)] out = run_script e [(n, x); (out, plug k (DVar n))] out.
+Proof. exact nested_is_flat. Qed.
+
 (* null propagates through the strict operators *)
 Theorem C01_null_propagates :
   (forall op v, (exists z, v = VInt z) \/ (exists q, v = VNum q) \/ v = VNull -> arith op v VNull = Ok VNull) /\
@@ -83,11 +94,25 @@ Example C01_example :
   d_binop Div A (mkD ["Id_1"%string] ["Me_1"%string] [([VInt 1], [VInt 0])]) = Err ERR_DIV0.
 Proof. vm_compute. split; reflexivity. Qed.
 
+(* the inner operator's LEFT operand has more identifiers than its right one; several datapoints share Id_1 *)
+Example C01_nested_example :
+  let D1 := mkD ["Id_1"; "Id_2"]%string ["Me_1"%string]
+                [([VInt 1; VStr "A"], [VInt 1]); ([VInt 1; VStr "B"], [VInt 2]); ([VInt 2; VStr "A"], [VInt 3]); ([VInt 3; VStr "A"], [VInt 4])] in
+  let D2 := mkD ["Id_1"%string] ["Me_1"%string] [([VInt 1], [VInt 10]); ([VInt 2], [VInt 100]); ([VInt 4], [VInt 1000])] in
+  let D3 := mkD ["Id_1"; "Id_2"]%string ["Me_1"%string]
+                [([VInt 1; VStr "A"], [VInt 5]); ([VInt 1; VStr "B"], [VInt 7]); ([VInt 2; VStr "A"], [VNull]); ([VInt 2; VStr "C"], [VInt 7])] in
+  deval [("DS_1", D1); ("DS_2", D2); ("DS_3", D3)]%string (DBin Add (DBin Mul (DVar "DS_1") (DVar "DS_2")) (DVar "DS_3"))
+  = Ok (mkD ["Id_1"; "Id_2"]%string ["Me_1"%string]
+            [([VInt 1; VStr "A"], [VInt 15]); ([VInt 1; VStr "B"], [VInt 27]); ([VInt 2; VStr "A"], [VNull])]).
+Proof. vm_compute. reflexivity. Qed.
+
 Print Assumptions C01_binop_matches.
 Print Assumptions C01_unmatched_absent.
 Print Assumptions C01_error_not_value.
 Print Assumptions C01_div_zero_is_error.
 Print Assumptions C01_map_spec.
+Print Assumptions C01_nested_operand_is_its_result.
+Print Assumptions C01_nested_statement_is_flat_script.
 Print Assumptions C01_null_propagates.
 Print Assumptions C01_kleene_and.
 Print Assumptions C01_kleene_or.
